@@ -12,10 +12,15 @@ broadcast use {str_ax::pat_char_ascii, str_ax::pat_slash, str_ax::pat_str, str_a
 
 pub mod lits {
     use super::*;
-    // TRUSTED (A-STR): byte values of the fixed literal segments
-    pub open spec fn pfx() -> Seq<u8> { seq![112u8, 114, 111, 106, 101, 99, 116, 115, 47] }                 // "projects/"
-    pub open spec fn mid_topics() -> Seq<u8> { seq![47u8, 116, 111, 112, 105, 99, 115, 47] }               // "/topics/"
-    pub open spec fn mid_subs() -> Seq<u8> { seq![47u8, 115, 117, 98, 115, 99, 114, 105, 112, 116, 105, 111, 110, 115, 47] }  // "/subscriptions/"
+    // the fixed literal segments as byte strings; tied to the real constants by `lit_bytes` in each module
+    pub uninterp spec fn pfx() -> Seq<u8>;          // "projects/"
+    pub uninterp spec fn mid_topics() -> Seq<u8>;   // "/topics/"
+    pub uninterp spec fn mid_subs() -> Seq<u8>;     // "/subscriptions/"
+    // TRUSTED (A-STR): lengths of the literals and the '/' (byte 47) at their ends - all the proofs need of them
+    pub axiom fn lits_shape()
+        ensures pfx().len() == 9, pfx()[8] == 47u8,
+            mid_topics().len() == 8, mid_topics()[0] == 47u8, mid_topics()[7] == 47u8,
+            mid_subs().len() == 15, mid_subs()[0] == 47u8, mid_subs()[14] == 47u8;
 }
 pub use lits::{pfx, mid_topics, mid_subs};
 
@@ -30,8 +35,8 @@ pub mod lit_ax {
     pub(super) axiom fn lit_bytes()
         ensures PROJECT_PREFIX.spec_bytes() == pfx(), TOPIC_PREFIX.spec_bytes() == mid_topics();
 }
-//@item src/topics/topic_name.rs const PROJECT_PREFIX_LEN ensures=9 proof=lit_ax::lit_bytes()
-//@item src/topics/topic_name.rs const TOPIC_PREFIX_LEN ensures=8 proof=lit_ax::lit_bytes()
+//@item src/topics/topic_name.rs const PROJECT_PREFIX_LEN ensures=9 proof=lit_ax::lit_bytes();lits::lits_shape()
+//@item src/topics/topic_name.rs const TOPIC_PREFIX_LEN ensures=8 proof=lit_ax::lit_bytes();lits::lits_shape()
 //@item src/topics/topic_name.rs struct TopicName drop-derive=Debug,Clone,PartialEq,Eq,Hash
 
 impl TopicName {
@@ -41,7 +46,13 @@ impl TopicName {
 //@fn src/topics/topic_name.rs TopicName::try_parse tags=C17
 //@ ret r
 //@ ensures[C18] r.is_some() ==> accepted_as(unparsed.spec_bytes(), mid_topics(), r.unwrap().p(), r.unwrap().t())
-//@ proof-start { lit_ax::lit_bytes(); }
+//@ # completeness: every string of the grammar is accepted (in particular the canonical echo of an accepted name)
+//@ ensures[C18] grammar_ok(unparsed.spec_bytes(), mid_topics()) ==> r.is_some()
+//@ proof-start[C18] { lits::lits_shape(); if grammar_ok(unparsed.spec_bytes(), mid_topics()) { lemma_grammar_facts(unparsed.spec_bytes(), mid_topics()); } }
+//@ proof-before[C18] /let project_id = unparsed\.get\(PROJECT_PREFIX_LEN\.\.\)\?;/ { if grammar_ok(unparsed.spec_bytes(), mid_topics()) { str_ax::ascii_boundaries(unparsed, 8); str_ax::end_boundaries(unparsed); } }
+//@ proof-before[C18] /let project_id = project_id\.get\(\.\.project_id\.find\(/ { if grammar_ok(unparsed.spec_bytes(), mid_topics()) { let n = proj_len(unparsed.spec_bytes()); assert(project_id.spec_bytes()[n] == 47u8); assert forall|j: int| 0 <= j < n implies project_id.spec_bytes()[j] != 47u8 by { assert(project_id.spec_bytes()[j] == unparsed.spec_bytes()[9 + j]); } str_ax::ascii_boundaries(project_id, n); str_ax::end_boundaries(project_id); } }
+//@ proof-before[C18] /let start = PROJECT_PREFIX_LEN \+ project_id\.len\(\);/ { if grammar_ok(unparsed.spec_bytes(), mid_topics()) { let n = proj_len(unparsed.spec_bytes()); assert(project_id.spec_bytes().len() == n); str_ax::ascii_boundaries(unparsed, 9 + n); str_ax::ascii_boundaries(unparsed, 9 + n + mid_topics().len() - 1); str_ax::end_boundaries(unparsed); } }
+//@ proof-start { lit_ax::lit_bytes(); lits::lits_shape(); }
 //@ proof-before[C18] /^\s*Some\(TopicName \{\s*$/ { let s = unparsed.spec_bytes(); let n = project_id.spec_bytes().len() as int; assert(s.subrange(9, s.len() as int).subrange(0, n) =~= s.subrange(9, 9 + n)); lemma_accept(s, mid_topics(), project_id.spec_bytes(), topic_id.spec_bytes()); }
 //@ closure 1 ret tr: &str
 //@ closure 1 ensures tr.spec_bytes() == trimmed(s.spec_bytes(), 47u8)
@@ -60,8 +71,8 @@ pub mod lit_ax {
     pub(super) axiom fn lit_bytes()
         ensures PROJECT_PREFIX.spec_bytes() == pfx(), SUBSCRIPTION_PREFIX.spec_bytes() == mid_subs();
 }
-//@item src/subscriptions/subscription_name.rs const PROJECT_PREFIX_LEN ensures=9 proof=lit_ax::lit_bytes()
-//@item src/subscriptions/subscription_name.rs const SUBSCRIPTION_PREFIX_LEN ensures=15 proof=lit_ax::lit_bytes()
+//@item src/subscriptions/subscription_name.rs const PROJECT_PREFIX_LEN ensures=9 proof=lit_ax::lit_bytes();lits::lits_shape()
+//@item src/subscriptions/subscription_name.rs const SUBSCRIPTION_PREFIX_LEN ensures=15 proof=lit_ax::lit_bytes();lits::lits_shape()
 //@item src/subscriptions/subscription_name.rs struct SubscriptionName drop-derive=Debug,Clone,PartialEq,Eq,Hash
 
 impl SubscriptionName {
@@ -71,7 +82,13 @@ impl SubscriptionName {
 //@fn src/subscriptions/subscription_name.rs SubscriptionName::try_parse tags=C17
 //@ ret r
 //@ ensures[C18] r.is_some() ==> accepted_as(unparsed.spec_bytes(), mid_subs(), r.unwrap().p(), r.unwrap().t())
-//@ proof-start { lit_ax::lit_bytes(); }
+//@ # completeness: every string of the grammar is accepted (in particular the canonical echo of an accepted name)
+//@ ensures[C18] grammar_ok(unparsed.spec_bytes(), mid_subs()) ==> r.is_some()
+//@ proof-start[C18] { lits::lits_shape(); if grammar_ok(unparsed.spec_bytes(), mid_subs()) { lemma_grammar_facts(unparsed.spec_bytes(), mid_subs()); } }
+//@ proof-before[C18] /let project_id = unparsed\.get\(PROJECT_PREFIX_LEN\.\.\)\?;/ { if grammar_ok(unparsed.spec_bytes(), mid_subs()) { str_ax::ascii_boundaries(unparsed, 8); str_ax::end_boundaries(unparsed); } }
+//@ proof-before[C18] /let project_id = project_id\.get\(\.\.project_id\.find\(/ { if grammar_ok(unparsed.spec_bytes(), mid_subs()) { let n = proj_len(unparsed.spec_bytes()); assert(project_id.spec_bytes()[n] == 47u8); assert forall|j: int| 0 <= j < n implies project_id.spec_bytes()[j] != 47u8 by { assert(project_id.spec_bytes()[j] == unparsed.spec_bytes()[9 + j]); } str_ax::ascii_boundaries(project_id, n); str_ax::end_boundaries(project_id); } }
+//@ proof-before[C18] /let start = PROJECT_PREFIX_LEN \+ project_id\.len\(\);/ { if grammar_ok(unparsed.spec_bytes(), mid_subs()) { let n = proj_len(unparsed.spec_bytes()); assert(project_id.spec_bytes().len() == n); str_ax::ascii_boundaries(unparsed, 9 + n); str_ax::ascii_boundaries(unparsed, 9 + n + mid_subs().len() - 1); str_ax::end_boundaries(unparsed); } }
+//@ proof-start { lit_ax::lit_bytes(); lits::lits_shape(); }
 //@ proof-before[C18] /^\s*Some\(SubscriptionName \{\s*$/ { let s = unparsed.spec_bytes(); let n = project_id.spec_bytes().len() as int; assert(s.subrange(9, s.len() as int).subrange(0, n) =~= s.subrange(9, 9 + n)); lemma_accept(s, mid_subs(), project_id.spec_bytes(), subscription_id.spec_bytes()); }
 //@ closure 1 ret tr: &str
 //@ closure 1 ensures tr.spec_bytes() == trimmed(s.spec_bytes(), 47u8)
@@ -79,12 +96,59 @@ impl SubscriptionName {
 }
 }
 
+#[verifier::opaque]
 /// C18 grammar: s = "projects/" p mid rest, '/' not in p, p and the (slash-trimmed) id non-empty
 pub open spec fn accepted_as(s: Seq<u8>, mid: Seq<u8>, p: Seq<u8>, t: Seq<u8>) -> bool {
     exists|rest: Seq<u8>| s == pfx() + p + mid + rest && #[trigger] trimmed(rest, 47u8) == t
         && p.len() > 0 && !p.contains(47u8) && t.len() > 0
 }
 
+/// C18 grammar as a predicate on the input alone: some decomposition exists
+#[verifier::opaque]
+pub open spec fn grammar_ok(s: Seq<u8>, mid: Seq<u8>) -> bool {
+    exists|p: Seq<u8>, rest: Seq<u8>| #[trigger] (pfx() + p + mid + rest) == s && p.len() > 0 && !p.contains(47u8) && trimmed(rest, 47u8).len() > 0
+}
+/// length of the project segment of a string of the grammar: offset of the first '/' after "projects/"
+pub open spec fn is_first_slash(s: Seq<u8>, k: int) -> bool {
+    9 <= k < s.len() && s[k] == 47u8 && (forall|j: int| 9 <= j < k ==> s[j] != 47u8)
+}
+pub open spec fn proj_len(s: Seq<u8>) -> int {
+    (choose|k: int| is_first_slash(s, k)) - 9
+}
+/// the decomposition is determined by the first '/' after the prefix (mid starts with '/')
+pub proof fn lemma_grammar_facts(s: Seq<u8>, mid: Seq<u8>)
+    requires grammar_ok(s, mid), mid.len() > 0, mid[0] == 47u8, pfx().len() == 9
+    ensures
+        proj_len(s) >= 1,
+        9 + proj_len(s) + mid.len() <= s.len(),
+        is_prefix(pfx(), s),
+        s[9 + proj_len(s)] == 47u8,
+        forall|j: int| 9 <= j < 9 + proj_len(s) ==> s[j] != 47u8,
+        is_prefix(mid, s.subrange(9 + proj_len(s), s.len() as int)),
+        trimmed(s.subrange(9 + proj_len(s) + mid.len(), s.len() as int), 47u8).len() > 0,
+{
+    reveal(grammar_ok);
+    let (p, rest) = choose|p: Seq<u8>, rest: Seq<u8>| #[trigger] (pfx() + p + mid + rest) == s && p.len() > 0 && !p.contains(47u8) && trimmed(rest, 47u8).len() > 0;
+    let n = p.len() as int;
+    let c = pfx() + p + mid + rest;
+    assert(c.len() == 9 + n + mid.len() + rest.len());
+    assert(s.subrange(0, 9) =~= pfx());
+    assert(s[9 + n] == mid[0]);
+    assert forall|j: int| 9 <= j < 9 + n implies s[j] != 47u8 by {
+        assert(s[j] == p[j - 9]);
+        if p[j - 9] == 47u8 { assert(p.contains(47u8)); }
+    }
+    // n is a witness of proj_len's choose, and the only one
+    assert(is_first_slash(s, 9 + n));
+    let m = proj_len(s);
+    assert(is_first_slash(s, 9 + m));
+    assert(m == n) by {
+        if m < n { assert(s[9 + m] != 47u8); }
+        if n < m { assert(s[9 + n] != 47u8); }
+    }
+    assert(s.subrange(9 + n, s.len() as int).subrange(0, mid.len() as int) =~= mid);
+    assert(s.subrange(9 + n + mid.len(), s.len() as int) =~= rest);
+}
 /// witness construction for `accepted_as` from the slicing facts the parser establishes
 pub proof fn lemma_accept(s: Seq<u8>, mid: Seq<u8>, p: Seq<u8>, t: Seq<u8>)
     requires
@@ -97,6 +161,8 @@ pub proof fn lemma_accept(s: Seq<u8>, mid: Seq<u8>, p: Seq<u8>, t: Seq<u8>)
         (p.len() as int) > 0, t.len() > 0,
     ensures accepted_as(s, mid, p, t)
 {
+    reveal(accepted_as);
+    lits::lits_shape();
     let rest = s.subrange(9 + (p.len() as int) + (mid.len() as int), s.len() as int);
     let tail = s.subrange(9 + (p.len() as int), s.len() as int);
     assert(mid == tail.subrange(0, (mid.len() as int)));
